@@ -5,6 +5,7 @@ CONSTANTS
   FullNode = FALSE
   Cap = 2
   Weaken = "noBump"
+  GapFix = FALSE
   Direct = FALSE
   Timeouts = FALSE
 PROPERTY NoRerun
